@@ -43,6 +43,13 @@ theorem fin_unpack {s0 b0 o n e0 r} (h : Fin s0 b0 o n e0 r) :
   obtain ⟨⟨a, m, hout, _, _, ⟨L, hL, hp, _⟩, hl⟩, hr⟩ := h
   exact ⟨a, L, m, hout, hL, hp, hl, hr⟩
 
+/-- every item completed while `b0` is being finished is an item of `b0` -/
+theorem items_of_fin {s0 b0 o n e0 r} (h : Fin s0 b0 o n e0 r) :
+    ∀ i o' bb, Ev.item i o' bb ∈ r.2 → r.1.ibatch i = b0 := by
+  obtain ⟨⟨a, m, hout, _, hev, _⟩, _⟩ := h
+  intro i o' bb hm
+  exact (hev _ hm).2.2.2.1
+
 /-- the clause about the batch that has to be flushed -/
 theorem fateClause_flushed {rx : Bool} {pre : St} {ob : Obs} {b : Nat} {clear : Bool} {a : Nat} {o : Outc}
     {e0 L : List Ev} (hf : fate pre ob.op = .flushed b clear)
@@ -50,7 +57,7 @@ theorem fateClause_flushed {rx : Bool} {pre : St} {ob : Obs} {b : Nat} {clear : 
     (hbi : ob.post.bitems b = if clear && !pre.keep then [] else pre.bitems b)
     (hact : ob.post.active = a) (hruns : ob.post.runs b = if pre.kind = .user then 1 else 0)
     (hevs : ob.evs = e0 ++ (L ++ [.announce b [] a])) (hL : ∀ ev ∈ L, ev.isPlain = true)
-    (hbp : BodyPart pre.kind a b o e0) : fateClause rx pre ob = none := by
+    (hbp : BodyPart pre.kind a b o e0) (hbx : BodyExtra pre b o e0) : fateClause rx pre ob = none := by
   unfold fateClause
   rw [firstFail_none]
   unfold fateChecks
@@ -71,13 +78,17 @@ theorem fateClause_flushed {rx : Bool} {pre : St} {ob : Obs} {b : Nat} {clear : 
       have hb2 : (L.filter Ev.isBody) = [] := filter_isBody_nil L (fun ev h => plain_isBody (hL ev h))
       have hm1 : e1.filterMap Ev.bodyEnd? = [] := filterMap_bodyEnd_nil e1 (fun ev h => plain_bodyEnd (hp1 ev h))
       have hm2 : L.filterMap Ev.bodyEnd? = [] := filterMap_bodyEnd_nil L (fun ev h => plain_bodyEnd (hL ev h))
-      rcases hx with hx | hx | hx | hx
+      rcases hx with hx | hx | hx | hx | hx
       · subst hx; simp [hruns]
       · subst hx; simp [hevs, hact]
       · subst hx
         simp [hevs, List.filter_append, hb1, hb2, Ev.isBody, List.filter]
       · subst hx
         simp [hevs, List.filterMap_append, hm1, hm2, Ev.bodyEnd?, List.filterMap, ho, hout]
+      · subst hx
+        have := hbx.1 hk (L ++ [.announce b [] a])
+        simp only [List.cons_append, List.append_assoc, List.singleton_append, List.nil_append] at this
+        simp [hevs, this]
     | debug =>
       rw [hk] at hbp
       simp only [hk, List.mem_cons, List.not_mem_nil, or_false] at hx
@@ -94,7 +105,11 @@ theorem fateClause_flushed {rx : Bool} {pre : St} {ob : Obs} {b : Nat} {clear : 
       rcases hx with hx | hx
       · subst hx; simp [hany]
       · subst hx
-        rcases ho with ho | ho <;> simp [hout, ho]
+        rcases ho with ho | ho
+        · simp [hout, ho]
+        · have hc := alreadyCause_append pre b e0 (L ++ [.announce b [] a]) (hbx.2 hk ho)
+          rw [← hevs] at hc
+          simp [hout, ho, hc]
 
 /-- the clause about the batch that has to be cancelled -/
 theorem fateClause_cancelled {rx : Bool} {pre : St} {ob : Obs} {b : Nat} {x : Err} {a : Nat} {L : List Ev}
@@ -119,7 +134,10 @@ theorem compute_ok {rx : Bool} (scripts : List Script) {s : St} (hg : Good s) {b
     (hf : fate s op = .flushed b clear)
     (h1 : opClause s ⟨op, res, (compute scripts s b).2, post⟩ = none) :
     specStep rx s ⟨op, res, (compute scripts s b).2, post⟩ = none := by
-  obtain ⟨o, e0, f, hbp⟩ := compute_fin scripts hg hb hp
+  obtain ⟨o, e0, f, hbp, hbx⟩ := compute_fin scripts hg hb hp
+  have hitems := items_of_fin f
+  have hblaw := blaw_compute scripts s b
+  have hfb : (fate s op).batch? = some b := by rw [hf]; rfl
   obtain ⟨a, L, m, hout, hL, hpl, hl, hr⟩ := fin_unpack f
   have hn0 := bodyPart_noann hbp
   obtain ⟨a', m', hs⟩ := logShape_of_fin f hn0
@@ -135,12 +153,17 @@ theorem compute_ok {rx : Bool} (scripts : List Script) {s : St} (hg : Good s) {b
   | true =>
     simp only [if_true] at hpost
     subst hpost
-    refine specStep_none h1 ?_ ?_ (ann_of_shape hs) ?_ (counts_clearUnlessKept _ _ hcnt) (ext_clearUnlessKept _ b hE)
+    refine specStep_none h1 ?_ ?_ ?_ (ann_of_shape hs) ?_ (counts_clearUnlessKept _ _ hcnt) (ext_clearUnlessKept _ b hE)
       (good_clearUnlessKept _ b hgood (by simp [hout]))
     · refine fateClause_flushed hf (o := o) (by simpa using hout) (by simpa [slot_clearUnlessKept] using hslot) ?_
-        (by simpa using m.act) (by simpa using hr) hL hpl hbp
+        (by simpa using m.act) (by simpa using hr) hL hpl hbp hbx
       simp only [clearUnlessKept_bitems, m.bi0]
       cases s.keep <;> simp
+    · exact frameClause_of hfb (fun i o' bb hm => by simpa using hitems i o' bb hm)
+        (fun c hc => by
+          have : ((compute scripts s b).1.clearUnlessKept s.keep b).bitems c = (compute scripts s b).1.bitems c := by
+            cases s.keep <;> simp [St.clearUnlessKept, clearItems_bitems, hc]
+          rw [this]; exact hblaw c)
     · intro ev hev
       simp only [hf, Fate.bodyRuns, evClause_clearUnlessKept]
       exact evClause_of_fin hg f ev hev
@@ -148,8 +171,9 @@ theorem compute_ok {rx : Bool} (scripts : List Script) {s : St} (hg : Good s) {b
   | false =>
     simp only [Bool.false_eq_true, if_false] at hpost
     subst hpost
-    refine specStep_none h1 ?_ ?_ (ann_of_shape hs) (after_of_shape _ hs) hcnt hE hgood
-    · exact fateClause_flushed hf (o := o) hout hslot (by simpa using m.bi0) m.act hr hL hpl hbp
+    refine specStep_none h1 ?_ (frameClause_of hfb hitems (fun c _ => hblaw c)) ?_ (ann_of_shape hs)
+      (after_of_shape _ hs) hcnt hE hgood
+    · exact fateClause_flushed hf (o := o) hout hslot (by simpa using m.bi0) m.act hr hL hpl hbp hbx
     · intro ev hev
       simp only [hf, Fate.bodyRuns]
       exact evClause_of_fin hg f ev hev
@@ -213,7 +237,9 @@ theorem step_ok_cancel {rx : Bool} (scripts : List Script) (s : St) (hg : Good s
       obtain ⟨a', m', hs⟩ := logShape_of_fin f (by simp)
       have ha' : a' = a := by rw [m'.aeq, m.aeq]
       subst ha'
-      refine specStep_none (by simp [opClause, hnb, hp]) ?_ ?_ (ann_of_shape hs) (after_of_shape _ hs)
+      refine specStep_none (by simp [opClause, hnb, hp]) ?_
+        (frameClause_of (by rw [hf]; rfl) (items_of_fin f) (fun c _ => blaw_completeBatch s b _ c)) ?_
+        (ann_of_shape hs) (after_of_shape _ hs)
         (counts_of_fin m hout hl hs) (ext_of_fin f) (good_of_fin f (by omega))
       · exact fateClause_cancelled hf hout hr (slot_of_mid m) m.bi0 (by simpa using hL) hpl
       · intro ev hev
@@ -337,11 +363,11 @@ theorem step_ok {rx : Bool} (scripts : List Script) (s : St) (hg : Good s) (op :
   | itemComputed i => exact step_ok_itemComputed scripts s hg i
 
 /-- what an accepted observation says, clause by clause -/
-theorem specStep_unpack {rx : Bool} {pre : St} {ob : Obs} (h : specStep rx pre ob = none) :
-    opClause pre ob = none ∧ fateClause rx pre ob = none ∧
+theorem specStep_unpack' {rx : Bool} {pre : St} {ob : Obs} (h : specStep rx pre ob = none) :
+    (opClause pre ob = none ∧ fateClause rx pre ob = none ∧
     (∀ ev ∈ ob.evs, evClause (fate pre ob.op).bodyRuns pre ob.post ev = none) ∧
     (ob.evs.filter Ev.isAnnounce).length ≤ 1 ∧ afterAnnounceOk ob.post ob.evs = true ∧
-    CountsOk pre ob.post ob.evs ∧ Ext pre ob.post ∧ Good ob.post := by
+    CountsOk pre ob.post ob.evs ∧ Ext pre ob.post ∧ Good ob.post) ∧ frameClause pre ob = none := by
   unfold specStep at h
   split at h
   · cases h
@@ -354,21 +380,34 @@ theorem specStep_unpack {rx : Bool} {pre : St} {ob : Obs} (h : specStep rx pre o
       · rename_i hf
         split at h
         · cases h
-        · rename_i h3
+        · rename_i hfr
           split at h
           · cases h
-          · rename_i ha
+          · rename_i h3
             split at h
             · cases h
-            · rename_i hc
+            · rename_i ha
               split at h
               · cases h
-              · rename_i h4
+              · rename_i hc
                 split at h
                 · cases h
-                · rename_i h5
-                  exact ⟨h1, hf, List.findSome?_eq_none_iff.mp h2, by omega, by simpa using ha, by simpa using hc,
-                    by simpa using h4, by simpa using h5⟩
+                · rename_i h4
+                  split at h
+                  · cases h
+                  · rename_i h5
+                    exact ⟨⟨h1, hf, List.findSome?_eq_none_iff.mp h2, by omega, by simpa using ha, by simpa using hc,
+                      by simpa using h4, by simpa using h5⟩, hfr⟩
+
+theorem specStep_unpack {rx : Bool} {pre : St} {ob : Obs} (h : specStep rx pre ob = none) :
+    opClause pre ob = none ∧ fateClause rx pre ob = none ∧
+    (∀ ev ∈ ob.evs, evClause (fate pre ob.op).bodyRuns pre ob.post ev = none) ∧
+    (ob.evs.filter Ev.isAnnounce).length ≤ 1 ∧ afterAnnounceOk ob.post ob.evs = true ∧
+    CountsOk pre ob.post ob.evs ∧ Ext pre ob.post ∧ Good ob.post := (specStep_unpack' h).1
+
+/-- the frame clause of an accepted observation -/
+theorem specStep_frame {rx : Bool} {pre : St} {ob : Obs} (h : specStep rx pre ob = none) :
+    frameClause pre ob = none := (specStep_unpack' h).2
 
 theorem good_of_specStep {rx : Bool} {pre : St} {ob : Obs} (h : specStep rx pre ob = none) : Good ob.post :=
   (specStep_unpack h).2.2.2.2.2.2.2
